@@ -128,9 +128,9 @@ struct _table_pdk16 table_pdk16[] =
   { "delay",   0x7e00, 0xfe00, OP_M9,   1, 1 },
   // Bit operations with memory.
   { "t0sn",    0x8000, 0xf000, OP_M_N,  1, 2 },
-  { "t1sn",    0x9400, 0xf000, OP_M_N,  1, 2 },
-  { "set0",    0xa800, 0xf000, OP_M_N,  1, 1 },
-  { "set1",    0xbc00, 0xf000, OP_M_N,  1, 1 },
+  { "t1sn",    0x9400, 0xfc00, OP_M_N,  1, 2 },
+  { "set0",    0xa800, 0xfc00, OP_M_N,  1, 1 },
+  { "set1",    0xbc00, 0xfc00, OP_M_N,  1, 1 },
   // Control transfers.
   { "goto",    0xc000, 0xf000, OP_K13,  2, 2 },
   { "call",    0xe000, 0xf000, OP_K13,  2, 2 },
